@@ -344,7 +344,7 @@ class FactFlow:
                     if ci >= 0:
                         out.add(("GE0", tn))
                     out.add(("EQ", tn, str(ci)))
-                elif self.ival is not None and isinstance(v, (ast.BinOp, ast.IfExp, ast.Subscript, ast.Name)):
+                elif self.ival is not None and (isinstance(v, (ast.BinOp, ast.IfExp, ast.Subscript, ast.Name)) or (isinstance(v, ast.Call) and isinstance(v.func, ast.Name) and v.func.id != "len")):
                     lo, hi = self.ival(v, self._pre)
                     if lo != float("-inf") or hi != float("inf"):
                         out.add(("INT", tn, lo, hi))
